@@ -394,6 +394,10 @@ func layersOf(s *Spec) []Layer {
 		sec2 := mk(s, "*secondary.withSecondaryError", Transparent, "")
 		sec2.Hidden = []*Spec{s.C}
 		return []Layer{stackL(s), sec, sec2, mk(s, "*errutil.withNewMessage", Full, "lit "+S(0)+" e="+Text(s.X[0])+": "+causeText())}
+	case "ukeymarker":
+		l := mk(s, "*gen.UWrapKeyMarker", Transparent, "")
+		l.Ext = S(0)
+		return []Layer{l}
 	case "uhinter":
 		l := mk(s, "*gen.UWrapHinter", Transparent, "")
 		l.Hint, l.Detail = S(0), S(1)
